@@ -1,16 +1,18 @@
 /-! # C18 model — `Cache` (`lena/flow/cache.py`) inside `Source` / `Sequence`
 (`lena/core/source.py`, `sequence.py`) and `alter_sequence` (`cache.py:170-204`, `lena/core/meta.py`)
 
-Transcription of the code as it is in /repo after commit 7584b54 (`fix: Cache stores the flow under
-its name only after the whole flow was saved`): a *generator machine with crash points* over an
+Transcription of the code as it is in /repo after the commits 7584b54 (`fix: Cache stores the flow under
+its name only after the whole flow was saved`) and dd601f1 (`fix: Cache creates a new temporary file instead of
+truncating one left by an interrupted run`): a *generator machine with crash points* over an
 *abstract file system*.
 
 * **File system.**  Every cache `c` (a natural number stands for its file name) owns two names: the
   cache file `final` (`self._filename`) and the temporary file `tmp` (`self._filename + ".tmp"`).
   A file is `none` (absent) or `some xs`: the pickle stream of the values `xs` (assumption: `pickle.load`
   returns the dumped values in order and raises `EOFError` exactly at the end).  Distinct caches have
-  non-interfering names.  The model is at the level of *names*: it assumes that a file handle which a
-  suspended generator still holds cannot change what a name denotes after another `open(name, "wb")`.
+  non-interfering names.  The model is at the level of *names*: a file object which a suspended generator
+  still holds cannot change what a name denotes after a later run has removed and re-created the file
+  (true since dd601f1: the later run writes to a new inode, the old object to an unlinked one).
 * **Generators.**  A pipeline that is being run is a `Chain`: the stack of Python generators that
   `Sequence.run` builds (`flow = el.run(flow)` for every element), most downstream first, on top of a
   `Bottom` that takes no input (the source generator, or `_load_flow`).  Each generator is `fresh` (created,
@@ -49,7 +51,8 @@ def FS.empty : FS := ⟨fun _ => ⟨none, none⟩⟩
 
 def FS.set (fs : FS) (c : Nat) (f : CFiles) : FS := ⟨fun d => if d = c then f else fs d⟩
 
-/-- `open(tmp_filename, "wb")`: the name denotes an empty file afterwards -/
+/-- `try: os.remove(tmp_filename) except OSError: pass` followed by `open(tmp_filename, "wb")` (cache.py:218-222,
+commit dd601f1): the name denotes a new, empty file afterwards -/
 def FS.openTmpW (fs : FS) (c : Nat) : FS := fs.set c { fs c with tmp := some [] }
 
 /-- `self._dump(val, f, protocol)` on the handle of the temporary file (a write to a name that was removed
@@ -124,7 +127,7 @@ inductive GenSt where
 inductive Bottom where
   /-- the source generator: `i` values were yielded so far -/
   | src (vals : List Val) (i : Nat) (raiseAt : Option Nat) (dead : Bool)
-  /-- `Cache._load_flow()` (cache.py:234-242); `rest` = what remains to be read from the open file -/
+  /-- `Cache._load_flow()` (cache.py:241-249); `rest` = what remains to be read from the open file -/
   | load (c : Nat) (st : GenSt) (rest : List Val)
   deriving Repr, DecidableEq
 
@@ -132,7 +135,7 @@ inductive Bottom where
 inductive Upper where
   /-- the `run` generator of map element `j`; `calls` values were received so far -/
   | map (j : Nat) (a : Int) (calls : Nat) (raiseAt : Option Nat) (dead : Bool)
-  /-- `Cache._dump_flow_and_yield(flow)` (cache.py:206-231) of cache `c` -/
+  /-- `Cache._dump_flow_and_yield(flow)` (cache.py:206-238) of cache `c` -/
   | dump (c : Nat) (st : GenSt)
   deriving Repr, DecidableEq
 
@@ -145,7 +148,7 @@ structure Chain where
 /-- `next` of the bottom generator.  The bottom never writes to the file system.
 `src`: the body `for i, v in enumerate(vals): (raise if i == raise_at); yield v` followed by
 `raise if raise_at == len(vals)`.
-`load` (cache.py:234-242): `with open(self._filename, "rb") as f: while True: try: yield load(f) except
+`load` (cache.py:241-249): `with open(self._filename, "rb") as f: while True: try: yield load(f) except
 EOFError: break`; the file is opened when the body is entered. -/
 def nextBottom (fs : FS) : Bottom → Res × List Ev × Bottom
   | .src vals i r true => (.done, [], .src vals i r true)
@@ -175,11 +178,12 @@ def mapAfter (j : Nat) (a : Int) (calls : Nat) (r : Option Nat) :
   | (.done, evs, fs', us', b') => (.done, evs, fs', .map j a calls r true :: us', b')
   | (.raised e, evs, fs', us', b') => (.raised e, evs, fs', .map j a calls r true :: us', b')
 
-/-- what `_dump_flow_and_yield` (cache.py:212-231) does with the answer of its upstream:
+/-- what `_dump_flow_and_yield` (cache.py:206-238) does with the answer of its upstream:
 ```
 tmp_filename = self._filename + ".tmp"; complete = False
 try:
-    with open(tmp_filename, "wb") as f:          # on the first `next` (see `nextUppers`)
+    try: os.remove(tmp_filename) except OSError: pass      # on the first `next` (see `nextUppers`)
+    with open(tmp_filename, "wb") as f:
         for val in flow:                          # pull upstream
             dump(val); yield val                  # item: write, then suspend
     complete = True                               # done: upstream is exhausted
